@@ -43,6 +43,7 @@ type childEvent struct {
 	Sentinel string `json:"sentinel,omitempty"` // problem of the sentinel call after this request ("" = answered correctly)
 	Total    int    `json:"total,omitempty"`
 	Size     int    `json:"size,omitempty"`
+	Req      string `json:"req,omitempty"` // the request bytes when short
 }
 
 func childHook() {
@@ -64,11 +65,18 @@ func childHook() {
 	os.Exit(0)
 }
 
-func (e *rpcEnv) requestsFor(chain string) []creq {
-	if chain == "embedded" {
-		return e.matrixRequests()
+func shortReq(b []byte) string {
+	if len(b) > 200 {
+		return ""
 	}
-	return e.requests()
+	return string(b)
+}
+
+func (e *rpcEnv) requestsFor(chain, tier string) []creq {
+	if chain == "embedded" {
+		return e.matrixRequests(tier)
+	}
+	return e.requests(tier)
 }
 
 func childMain(spec *childSpec) {
@@ -85,7 +93,14 @@ func childMain(spec *childSpec) {
 	c := &xs.Ctx{ID: "C18", Tier: spec.Tier, Scratch: spec.Scratch, Deadline: time.Now().Add(time.Hour)}
 	ci := getChain(c, spec.Chain)
 	env := newRPCEnv(ci)
-	reqs := env.requestsFor(spec.Chain)
+	reqs := env.requestsFor(spec.Chain, spec.Tier)
+	seenP := map[string]bool{}
+	for _, p := range setupProblems {
+		if !seenP[p] && spec.K == 0 {
+			emit(childEvent{Ev: "end", I: -1, Class: "setup:" + strings.SplitN(p, ":", 2)[0], Tr: "direct", Outcome: "bad", Problem: p, Key: "valid-call-fails-directly"})
+		}
+		seenP[p] = true
+	}
 	seen := map[string]bool{}
 	for _, q := range reqs {
 		if seen[q.Class] {
@@ -121,10 +136,14 @@ func childMain(spec *childSpec) {
 			} else {
 				t = env.doPipe(q)
 			}
-			emit(childEvent{Ev: "end", I: i, Class: q.Class, Tr: tr, Outcome: t.Outcome, Problem: t.Problem, Key: t.Key, Sentinel: env.sentinelHTTP(), Size: len(q.Body)})
+			emit(childEvent{Ev: "end", I: i, Class: q.Class, Tr: tr, Outcome: t.Outcome, Problem: t.Problem, Key: t.Key, Sentinel: env.sentinelHTTP(), Size: len(q.Body), Req: shortReq(q.Body)})
 		}
 	}
-	emit(childEvent{Ev: "done", Total: len(reqs)})
+	total := 0
+	if spec.K == 0 {
+		total = len(reqs)
+	}
+	emit(childEvent{Ev: "done", Total: total})
 	out.Close()
 }
 
@@ -203,10 +222,16 @@ func absorb(r *xs.Result, chain string, events []childEvent) (lastBegun *childEv
 			r.Count("c_requests_"+ev.Tr, 1)
 			r.Add("c_outcomes", fam+"|"+ev.Tr+"|"+ev.Outcome)
 			r.Add("c_classes", fam)
+			if ev.Outcome != "empty-request-empty-200" && ev.I >= 0 {
+				r.Add("nontrivial", digest([]byte("c|"+chain+"|"+ev.Class+"|"+ev.Tr)))
+			}
+			if ev.I >= 0 && ev.Req != "" && (strings.HasPrefix(ev.Class, "wrongtype:") || strings.HasPrefix(ev.Class, "truncate:V2@1")) {
+				sampleOnce(r, "c", map[string]interface{}{"tier": curTier, "part": "c", "request_class": ev.Class, "request": ev.Req, "transport": ev.Tr, "outcome": ev.Outcome})
+			}
 			if strings.HasPrefix(ev.Class, "truncate:") {
 				r.Count("c_truncations", 1)
 			}
-			rep := map[string]interface{}{"part": "c", "c": cReplay{chain, ev.Class, ev.Tr}}
+			rep := map[string]interface{}{"tier": curTier, "part": "c", "c": cReplay{chain, ev.Class, ev.Tr}}
 			if ev.Problem != "" {
 				r.Violate("C18:server:"+ev.Key+":"+fam, fmt.Sprintf("request %q (%d bytes) over %s: %s", ev.Class, ev.Size, ev.Tr, ev.Problem), rep)
 			}
@@ -246,7 +271,7 @@ func runC(c *xs.Ctx, r *xs.Result, it workItem) {
 		}
 		r.Count("c_child_deaths", 1)
 		r.Violate("C18:server:process-terminated:"+classFamily(open.Class), fmt.Sprintf("request %q over %s terminated the server process: %s", open.Class, open.Tr, tail),
-			map[string]interface{}{"part": "c", "c": cReplay{it.Chain, open.Class, open.Tr}})
+			map[string]interface{}{"tier": curTier, "part": "c", "c": cReplay{it.Chain, open.Class, open.Tr}})
 		from = open.I + 1
 		if restarts > 25 {
 			r.Incomplete = true
@@ -268,6 +293,6 @@ func replayC(c *xs.Ctx, r *xs.Result, raw json.RawMessage) {
 			panic("C18 replay child died outside the request: " + tail)
 		}
 		r.Violate("C18:server:process-terminated:"+classFamily(open.Class), fmt.Sprintf("request %q over %s terminated the server process: %s", open.Class, open.Tr, tail),
-			map[string]interface{}{"part": "c", "c": rep})
+			map[string]interface{}{"tier": curTier, "part": "c", "c": rep})
 	}
 }
